@@ -15,7 +15,7 @@ func init() {
 		Run: runC10,
 		Decided: "parse errors are built in one place each (ParseError in posErr, LangError in checkLang) and every ParseError carries the Incomplete bit computed as " +
 			"`at EOF and Incomplete()` (R10a); the two quantities Incomplete() reads are balanced: the open-node counter is decremented after each increment on every path (R10b) and " +
-			"every literal that is started is ended or discarded on every path that does not report an error (R10c); the byte offset that positions are derived from is advanced once per refill (R10d). No parser bookkeeping slice is truncated in place while a saved alias is still read (R10f).",
+			"every literal that is started is ended or discarded on every path that does not report an error (R10c); the byte offset that positions are derived from is advanced once per refill (R10d). No parser bookkeeping slice is truncated in place while a saved alias is still read (R10f). Rune-level code that leaves on the end-of-input sentinel hands a token over before anything reports an error, so that error is computed with tok == _EOF (R10g).",
 		NotDecided:  "that error positions lie inside the input; that every line-boundary prefix of a valid program is flagged incomplete (known gap, not a structural one: a prefix cut inside a here-document body fails with `unclosed here-document`, which is not marked incomplete).",
 		Assumptions: []string{"errors reach the caller only through Parser.err (set in errPass and fill)"},
 		Controls:    c10Controls,
@@ -34,6 +34,8 @@ func runC10(p *Prog, r *Result) {
 	r.Rule("R10c", "every newLit() is followed on every path to the function exit by endLit(), litBs = nil, another newLit(), or an error report", 15)
 	r.Rule("R10e", "every Parser field is reset between parses or classified (shared with C08 R08a): state that feeds Incomplete or error positions cannot leak from an earlier parse", 40)
 	r.Rule("R10f", "parser bookkeeping slices (pending here-documents, stop words, …) are not truncated in place while a local saved from them is still read: a clobbered pending list turns into a spurious `unclosed here-document`", 3)
+	r.Rule("R10g", "rune-level code that leaves on the end-of-input sentinel stores p.tok (or calls something that always does) before it returns, so the error that follows is computed with tok == _EOF", 15)
+	checkEOFExitsSetToken(p, r, pkg, "R10g", c10EOFExceptions)
 	r.Rule("R10d", "fill() advances the offset base exactly once per call (the update is not on a cycle)", 1)
 
 	g := buildRefGraph(p)
@@ -252,6 +254,10 @@ func checkCountersRule(p *Prog, r *Result, pkg interface{ }, rule string) {
 }
 
 var c10Controls = []Control{
+	{Name: "quoted-heredoc-eof-keeps-old-token", Rule: "R10g", WantKey: "quotedHdocWord#end-of-input exit", File: "syntax/lexer.go",
+		Mutate: ctlReplaceAnywhere("\t\t\tp.tok = _EOF\n\t\t\treturn nil\n\t\t}\n\t\tfor p.quote == hdocBodyTabs && r == '\\t' {", "\t\t\treturn nil\n\t\t}\n\t\tfor p.quote == hdocBodyTabs && r == '\\t' {")},
+	{Name: "parameter-name-eof-keeps-old-token", Rule: "R10g", WantKey: "paramExpParameter#end-of-input exit", File: "syntax/parser.go",
+		Mutate: ctlReplaceAnywhere("\t\t\t\tif p.r == runeEOF {\n\t\t\t\t\t// The name may still follow, so the input is incomplete.\n\t\t\t\t\tp.tok = _EOF\n\t\t\t\t}\n", "")},
 	{Name: "pending-heredocs-truncated-under-alias", Rule: "R10f", WantKey: "doHeredocs#p.heredocs truncated", File: "syntax/parser.go",
 		Mutate: ctlReplaceAnywhere("\thdocs = slices.Clone(hdocs)\n", "")},
 	{Name: "second-parseerror-site", Rule: "R10a", WantKey: "ParseError#constructed in", File: "syntax/parser.go",
@@ -267,3 +273,7 @@ var c10Controls = []Control{
 }
 
 var _ = strings.Join
+
+
+// c10EOFExceptions: rune-level functions whose end-of-input exits need no token of their own, with the reason.
+var c10EOFExceptions = map[string]string{}
